@@ -73,4 +73,61 @@ theorem other_spec {cfg : Cfg} {s : St} {rid sid key : Nat} {now : Int}
         | some e => rfl
         | none => simp only [ha] at h; exact absurd rfl (h key)
 
+/-! the clean-up of a refused connection -/
+
+/-- pinned shape: it IS the locked part of `CloseSession(rid's record, sid)` -/
+theorem refusedCleanup_names {cfg : Cfg} {s : St} {rid sid : Nat} (h : cfg.cleanupNamesSession = true) :
+    (refusedCleanup cfg s rid sid).1 = (closeLocked s rid sid).1 := by
+  unfold refusedCleanup
+  rw [if_pos h]
+  split <;> (rename_i heq; rw [heq])
+
+/-- repaired shape, no such record -/
+theorem refusedCleanup_noRec {cfg : Cfg} {s : St} {rid sid : Nat} (h : cfg.cleanupNamesSession = false)
+    (hr : s.recs[rid]? = none) : refusedCleanup cfg s rid sid = (s, none) := by
+  unfold refusedCleanup
+  simp [h, hr]
+
+/-- repaired shape: the only thing it may change is the `retired` flag of a record that is EMPTY at that moment -/
+theorem refusedCleanup_rec {cfg : Cfg} {s : St} {rid sid : Nat} {r : Rec} (h : cfg.cleanupNamesSession = false)
+    (hr : s.recs[rid]? = some r) :
+    refusedCleanup cfg s rid sid =
+      ({ s with recs := s.recs.set rid { r with retired := r.retired || (cfg.cleanupRetires && r.sessions.isEmpty) } },
+       some r.sessions.isEmpty) := by
+  unfold refusedCleanup
+  simp [h, hr]
+
+/-- … so a record that has a session is left exactly as it was, and no termination is started -/
+theorem refusedCleanup_nonempty {cfg : Cfg} {s : St} {rid sid : Nat} {r : Rec} (h : cfg.cleanupNamesSession = false)
+    (hr : s.recs[rid]? = some r) (hne : r.sessions ≠ []) :
+    refusedCleanup cfg s rid sid = (s, some false) := by
+  rw [refusedCleanup_rec h hr]
+  have he : r.sessions.isEmpty = false := by
+    cases hs : r.sessions with
+    | nil => exact absurd hs hne
+    | cons a t => rfl
+  have hrec : ({ r with retired := r.retired || (cfg.cleanupRetires && r.sessions.isEmpty) } : Rec) = r := by
+    rw [he]; simp
+  rw [hrec, he]
+  have : s.recs.set rid r = s.recs := by
+    apply List.ext_getElem?
+    intro j
+    by_cases hj : rid = j
+    · subst hj; rw [getElem?_set_eq' _ _ _ _ hr, hr]
+    · rw [getElem?_set_ne' _ _ _ _ hj]
+  rw [this]
+
+/-- the clean-up announces a termination (`some true`) only for a record it found empty; with `cleanupRetires` that
+record is retired by the same step -/
+theorem refusedCleanup_terminate_spec {cfg : Cfg} {s : St} {rid sid : Nat} (h : cfg.cleanupNamesSession = false)
+    (ht : (refusedCleanup cfg s rid sid).2 = some true) :
+    ∃ r, s.recs[rid]? = some r ∧ r.sessions = [] ∧
+      (refusedCleanup cfg s rid sid).1.recs = s.recs.set rid { r with retired := r.retired || cfg.cleanupRetires } := by
+  cases hr : s.recs[rid]? with
+  | none => rw [refusedCleanup_noRec h hr] at ht; cases ht
+  | some r =>
+    rw [refusedCleanup_rec h hr] at ht ⊢
+    simp only [Option.some.injEq] at ht
+    exact ⟨r, rfl, List.isEmpty_iff.1 ht, by simp [ht]⟩
+
 end Panel
